@@ -1172,7 +1172,11 @@ func cancelMatrix() []CancelCase {
 				if strings.HasPrefix(t, "h1") {
 					how = "tcp"
 				}
-				out = append(out, CancelCase{Part: "cancel", Transport: t, Shape: sh, State: st, K: 2, MsgSize: 5, BigSize: 256 << 10, MaxBig: 384, How: how})
+				c := CancelCase{Part: "cancel", Transport: t, Shape: sh, State: st, K: 2, MsgSize: 5, BigSize: 256 << 10, MaxBig: 384, How: how}
+				if sh == "upload" {
+					c.DelayUS = 20000 // let the first bytes of the chunk arrive
+				}
+				out = append(out, c)
 			}
 		}
 	}
